@@ -675,6 +675,10 @@ def makerandCIJdegreesfixed(inv, outv, seed=None):
     '''
     rng = get_rng(seed)
 
+    # plain integer vectors: Nx1 columns and narrow integer types (whose running
+    # offsets wrap around beyond 127 / 255) are accepted as well
+    inv = np.asarray(inv, dtype=int).ravel()
+    outv = np.asarray(outv, dtype=int).ravel()
     n = len(inv)
     k = np.sum(inv)
     in_inv = np.zeros((k,), dtype=int)
